@@ -1,3 +1,5 @@
+#[cfg(adlt_verif)]
+use adlt_verif_seam::std;
 use std::{
     fmt::Debug,
     sync::{
